@@ -39,7 +39,7 @@ pub fn specs() -> Vec<CheckSpec> {
             level: "exploration",
             owns: &["write-ok", "address", "read-exact", "lookup", "missing-content", "commit-accept", "content-integrity"],
             runs: (4000, 250_000),
-            rule: "a case = a seeded history of 1-5 writes (all entry points, chunkings incl. empty/decreasing/single-byte chunks, flush, 5 algorithms, hostile keys, sizes 0..3 MiB around the 1 MiB mmap threshold, declared size correct or absent) each followed by reads by key and by address through a drawn flavour and finally through all three. Non-trivial = at least one write succeeded and was read back; distinct by hash of the normalised step/result log",
+            rule: "a case = a seeded history of 1-5 writes (all entry points, chunkings incl. empty/decreasing/single-byte chunks, flush, 5 algorithms, hostile keys, sizes 0..3 MiB around the 1 MiB mmap threshold, declared size correct or absent) each followed by reads by key and by address through a drawn flavour and finally through all three. Non-trivial = at least one write succeeded and was read back; distinct by hash of the normalised step/result log. Declared sizes are wrong in 1 of 6 declarations (rejection demanded, lookups unchanged). 2 runs in 16 are the own-writes family under the system-call scheduler: one async client reads back at once what it has just written or removed while system calls its previous call left on runtime pool threads are still parked; the schedule (canonical-first, seeded random, PCT) decides which goes first",
             assumptions: A_COMMON,
         },
         CheckSpec {
@@ -48,7 +48,7 @@ pub fn specs() -> Vec<CheckSpec> {
             level: "exploration",
             owns: &["lookup", "read-exact", "missing-content"],
             runs: (2500, 150_000),
-            rule: "exhaustive core: every history of length <= 4 (quick) / <= 5 (thorough) over {2 keys} x {write short record, write long record, remove} with a full audit (metadata, read, list of every key) after every step through a drawn flavour; then seeded histories of 2-40 ops over 1-6 keys with mixed sync/async flavours and valid foreign-key records planted in bucket files. Non-trivial = history contains a re-write or a removal of a previously written key; distinct by hash of the normalised log",
+            rule: "exhaustive core: every history of length <= 4 (quick) / <= 5 (thorough) over {2 keys} x {write short record, write long record, remove} with a full audit (metadata, read, list of every key) after every step through a drawn flavour; then seeded histories of 2-40 ops over 1-6 keys with mixed sync/async flavours and valid foreign-key records planted in bucket files. Non-trivial = history contains a re-write or a removal of a previously written key; distinct by hash of the normalised log. 1 run in 16 is the own-writes family under the system-call scheduler (see C02)",
             assumptions: A_COMMON,
         },
         CheckSpec {
@@ -75,7 +75,7 @@ pub fn specs() -> Vec<CheckSpec> {
             level: "exploration",
             owns: &["removal", "lookup", "read-exact", "missing-content", "exists", "listing", "content-lost"],
             runs: (2000, 120_000),
-            rule: "a case = seeded history (3-30 ops) over 2-8 keys sharing 1-3 values mixing writes with remove, remove_hash, remove_fully, clear; after every op a full audit (metadata, read, read_hash, exists of every key/address of the model, listing). Non-trivial = contains >= 1 successful removal of something present",
+            rule: "a case = seeded history (3-30 ops) over 2-8 keys sharing 1-3 values mixing writes with remove, remove_hash, remove_fully, clear; after every op a full audit (metadata, read, read_hash, exists of every key/address of the model, listing). Non-trivial = contains >= 1 successful removal of something present. A write that fails after a clear of the same history is a violation (the cleared cache must stay usable). 1 run in 10 removes neighbours in one content shard directory; 1 run in 16 is the own-writes family under the system-call scheduler (see C02)",
             assumptions: A_COMMON,
         },
         CheckSpec {
@@ -111,7 +111,7 @@ pub fn specs() -> Vec<CheckSpec> {
             level: "exploration",
             owns: &["abandon-trace", "lookup", "listing", "read-exact", "missing-content"],
             runs: (2500, 120_000),
-            rule: "a case = writers abandoned after creation / after k chunks / while a background write is in flight (async poll-once-then-drop) / after flush / after close / after a rejected commit, interleaved with successful ops; index snapshot before vs after and tmp/ drained. Non-trivial = >= 1 writer abandoned after receiving data",
+            rule: "a case = writers abandoned after creation / after k chunks / while a background write is in flight (async poll-once-then-drop) / after flush / after close / after a rejected commit, interleaved with successful ops; index snapshot before vs after and tmp/ drained. Non-trivial = >= 1 writer abandoned after receiving data. Rejections by a declared size smaller or larger than the data (both sides of 1 MiB) and by a declared integrity that names nothing or names another stored value. Families under the system-call scheduler: abandoned async writers and cancelled futures with their pool threads scheduled, commits failing on every call x errno, and one write future dropped after a single poll followed by shorter writes (abandon-chunk)",
             assumptions: A_COMMON,
         },
         CheckSpec {
@@ -120,7 +120,7 @@ pub fn specs() -> Vec<CheckSpec> {
             level: "exploration",
             owns: &["address", "content-integrity", "content-lost", "read-exact", "checked-read", "exists", "write-ok", "commit-accept", "serializability", "partial-record"],
             runs: (2500, 120_000),
-            rule: "a case = history re-writing 1-2 values under several keys, algorithms, entry points and flavours; returned address compared with the simulator's digest; content area compared with the model (one file per address, bytes intact); optional damage of one algorithm's copy. Non-trivial = the same bytes were written at least twice",
+            rule: "a case = history re-writing 1-2 values under several keys, algorithms, entry points and flavours; returned address compared with the simulator's digest; content area compared with the model (one file per address, bytes intact); optional damage of one algorithm's copy. Non-trivial = the same bytes were written at least twice. Families under the system-call scheduler: 2-3 concurrent writers of identical content (serialisability oracle; every two-switch schedule for a re-writer against a reader by address) and abandon-chunk (a write future dropped after one poll, shorter writes after it: the committed address must name a file holding exactly those bytes)",
             assumptions: A_COMMON,
         },
         CheckSpec {
@@ -129,7 +129,7 @@ pub fn specs() -> Vec<CheckSpec> {
             level: "exploration",
             owns: &["format", "lookup", "listing", "read-exact"],
             runs: (2500, 120_000),
-            rule: "a case = history alternating library writes (3 flavours) and records appended by the simulator's independent writer; raw bucket bytes must equal the reference encoding of the model's insert sequence, the independent decode must equal the model, and library lookups of reference-written records must equal the model. Non-trivial = >= 2 records in some bucket",
+            rule: "a case = history alternating library writes (3 flavours) and records appended by the simulator's independent writer; raw bucket bytes must equal the reference encoding of the model's insert sequence, the independent decode must equal the model, and library lookups of reference-written records must equal the model. Non-trivial = >= 2 records in some bucket. 1 run in 16 is the own-writes family under the system-call scheduler (an acknowledged record must be in the bucket when the caller's next call looks)",
             assumptions: A_COMMON,
         },
         CheckSpec {
@@ -138,7 +138,7 @@ pub fn specs() -> Vec<CheckSpec> {
             level: "fault_enumeration",
             owns: &["extract", "extract-leftover", "checked-read"],
             runs: (2500, 120_000),
-            rule: "a case = stored value x (pristine | one damage class of C01 | content missing | key missing) x every extraction entry point (copy/hard_link/reflink, checked/unchecked, key/address, 5 flavours) x destination (absent, existing file, directory, inside cache). Non-trivial = an extraction ran against damaged or missing content, or succeeded and was compared byte-for-byte",
+            rule: "a case = stored value x (pristine | one damage class of C01 | content missing | key missing) x every extraction entry point (copy/hard_link/reflink, checked/unchecked, key/address, 5 flavours) x destination (absent, existing file, directory, inside cache). Non-trivial = an extraction ran against damaged or missing content, or succeeded and was compared byte-for-byte; existing destinations are longer than the data or exactly as long with other bytes, or the destination of an earlier extraction of the same run (possibly a hard link to the content file); reflink runs through the FICLONE stub of the system-call simulator",
             assumptions: A_COMMON,
         },
         CheckSpec {
@@ -147,7 +147,7 @@ pub fn specs() -> Vec<CheckSpec> {
             level: "exploration",
             owns: &["linkto", "read-exact", "checked-read", "lookup", "meta-fields", "missing-content"],
             runs: (2500, 100_000),
-            rule: "a case = link_to of a target (0 B .. 40 KiB; absolute or relative path with the worker's cwd changed) through every link entry point with partial reads before commit and right/wrong declared size/integrity, then target modified / truncated / removed / replaced / restored, reads by key and address. Non-trivial = a link was committed and read back or rejected",
+            rule: "a case = link_to of a target (0 B .. 40 KiB; absolute or relative path with the worker's cwd changed) through every link entry point with partial reads before commit and right/wrong declared size/integrity, then target modified / truncated / removed / replaced / restored, reads by key and address. Non-trivial = a link was committed and read back or rejected; targets spelled through a directory symlink followed by '..' (with and without a decoy at the textually folded path); extractions whose destination is the linked file itself; twin targets with identical bytes, relinking after the first target is gone",
             assumptions: A_COMMON,
         },
         CheckSpec {
@@ -156,7 +156,7 @@ pub fn specs() -> Vec<CheckSpec> {
             level: "exploration",
             owns: &["no-panic"],
             runs: (3000, 200_000),
-            rule: "a case = a hostile program: zero-length data through every entry point, declared-size data in several chunks, more/fewer bytes than declared on both sides of 1 MiB, odd on-disk states (bucket path is a directory, content path is a directory, tmp or index-v5 is a regular file, cache root missing or a file, stray files), every call under catch_unwind and a watchdog. Non-trivial = >= 1 misuse or odd-state step executed",
+            rule: "a case = a hostile program: zero-length data through every entry point, declared-size data in several chunks, more/fewer bytes than declared on both sides of 1 MiB, odd on-disk states (bucket path is a directory, content path is a directory, tmp or index-v5 is a regular file, cache root missing or a file, stray files), every call under catch_unwind and a watchdog. Non-trivial = >= 1 misuse or odd-state step executed; index lines that are well-formed UTF-8 with a multi-byte character across the checksum/tab boundary; 1 run in 16 is the abandon-chunk family under the system-call scheduler (a write future dropped in flight, then write_all with shorter buffers)",
             assumptions: A_COMMON,
         },
     ]
